@@ -34,7 +34,9 @@ void v_free(void *p) {
     if (g_free_calls == 0) g_free_arg0 = p;
     g_free_calls++;
     g_free_arg = p;
+#ifndef V_FREE_COUNTS_ONLY      /* (units whose release happens inside a loop that carries a loop contract: DFCC forbids it there, the release is only recorded) */
     free(p);
+#endif
 }
 void v_log_noop(const char *caller, int lineno, const char *fmt, ...) { (void)caller; (void)lineno; (void)fmt; }
 
